@@ -302,6 +302,11 @@ class Impl:
             kind, g, a, b = op[1:5]
             step = op[5] if len(op) > 5 else None
             del self._io(kind, g)[a:b:step]
+        elif k == "X_NewNodeBadAttr":
+            # Node(...) with an attribute list the constructor rejects (not Attr objects); nothing is registered
+            _, xs, outs, how = op
+            bad = {"object": [object()], "int-mapping": {"a": 5}, "mixed": [ir.AttrInt64("k", 1), "oops"]}[how]
+            ir.Node("", "Op", [None if x is None else V[x] for x in xs], attributes=bad, outputs=[V[x] for x in outs])
         elif k == "X_MergeShapes":
             V[op[1]].merge_shapes(None if op[2] is None else ir.Shape(op[2]))
         elif k == "X_VSetNameRaw":
@@ -348,6 +353,14 @@ class Impl:
 
 # --------------------------------------------------------------------------- observation (public accessors only)
 
+def _safe_graph(im, v):
+    """Value.graph; 9998 when the accessor itself raises (the value's producer is a half-built node)."""
+    try:
+        return im.h(v.graph, "g")
+    except Exception:  # noqa: BLE001
+        return 9998
+
+
 def _tensor_obs(t):
     """What is reachable through Value.const_value: the tensor's own name, doc string, metadata, dtype, shape, bytes."""
     if t is None:
@@ -364,7 +377,7 @@ def observe(im: Impl) -> dict:
             "uses": [[im.h(u.node, "n"), u.idx] for u in v.uses()],
             "consumers": [im.h(n, "n") for n in v.consumers()],
             "in": bool(v.is_graph_input()), "out": bool(v.is_graph_output()), "init": bool(v.is_initializer()),
-            "graph": im.h(v.graph, "g"), "const": _tensor_obs(v.const_value),
+            "graph": _safe_graph(im, v), "const": _tensor_obs(v.const_value),
             "shape": None if v.shape is None else [str(d) for d in v.shape], "type": None if v.type is None else repr(v.type)})
     nodes = []
     for n in im.nodes:
@@ -599,6 +612,8 @@ def site_of(op: list, outcome: str) -> str | None:
         return "init-update-partial"
     if k == "X_InitSetDefault" and outcome == "ValueError":
         return "init-setitem-partial"
+    if k == "X_NewNodeBadAttr" and raised:
+        return "node-ctor-rejected-claims-outputs"
     if k == "X_MergeShapes" and raised:
         return "merge-shapes-partial"
     if k == "X_ConvReplaceAllUses" and raised:
@@ -1429,7 +1444,7 @@ def run_check(ck, which: str) -> None:  # noqa: C901, PLR0912, PLR0915
     ck.coverage["multi_graph_stream"] = ("nested graphs (2-8 permuted If-like bodies, one cyclic scope) + Graph.sort on top/nested "
                                          "graphs; rename_values / replace_all_uses_with spanning >= 2 graphs with the invalid "
                                          "element in a later graph")
-    ck.coverage["ops_oracle_only"] = ["IOSetSlice/IODelSlice with step or negative bounds", "IOSort", "VSetName to a non-str / unencodable name", "Value.merge_shapes", "InitIOr written on the attribute",
+    ck.coverage["ops_oracle_only"] = ["IOSetSlice/IODelSlice with step or negative bounds", "IOSort", "VSetName to a non-str / unencodable name", "Value.merge_shapes", "InitIOr written on the attribute", "Node(...) rejected for its attributes",
                                       "GRegisterInitializer", "ConvReplaceAllUses", "ConvRenameValues",
                                       "ConvReplaceNodesAndValues"]
     ck.prove()
@@ -1560,7 +1575,7 @@ def run_check(ck, which: str) -> None:  # noqa: C901, PLR0912, PLR0915
         if i < 0:
             ops = corpus_oracle_only[i]
         gen = (gen_slices, gen_multi_rename, gen_refused_names, gen_multi_rau, gen_slices,
-               gen_slices, gen_multi_rename, gen_refused_names, gen_merge_shapes, gen_slices)[i % 10]
+               gen_slices, gen_multi_rename, gen_refused_names, gen_merge_shapes, gen_bad_node)[i % 10]
         if i >= 0:
             ops = gen(rng)
         st = run_history(ops)["steps"]
@@ -1987,6 +2002,23 @@ def gen_refused_names(rng) -> list[list]:
         else:
             b.ops.append(["VSetName", v, rng.choice(["u5", "u6", "u1", None])])
     b.ops.append(["InitPop", g, "u0"] if rng.random() < 0.3 else ["X_VSetNameRaw", rng.choice(vals[:2]), rng.choice(REFUSED_NAMES)])
+    return b.ops
+
+
+def gen_bad_node(rng) -> list[list]:
+    """Node(inputs, attributes=<rejected>, outputs=[given values]): the call raises; inputs and outputs must be untouched."""
+    b = _B()
+    vals = []
+    for nm in ("u0", "u1", None):
+        b.ops.append(["NewValue", b.nv, nm])
+        vals.append(b.nv)
+        b.nv += 1
+    n, (o,) = b.node([vals[0]])
+    if rng.random() < 0.5:
+        b.graph([vals[0]], [o], [], [n])
+    outs = rng.sample(vals[1:], rng.choice([1, 2]))
+    b.ops.append(["X_NewNodeBadAttr", [rng.choice([vals[0], o, None]) for _ in range(rng.randrange(0, 3))], outs,
+                  rng.choice(["object", "int-mapping", "mixed"])])
     return b.ops
 
 
